@@ -40,6 +40,13 @@ def run_len(ctx, pt):
         ctx.eq('%s/%s' % (K, cls), ctx.attempt(lambda: mk(Nb, Nb)(M, bitlen=L)), ('ok', exp))
         if L % 8 == 0:
             ctx.eq(K + '/byte-message', ctx.attempt(lambda: mk(Nb, Nb)(M)), ('ok', exp))
+        if kind == 0:
+            # second call on an object that already hashed another (multi-block, non byte-aligned) message
+            def second():
+                o = mk(Nb, Nb)
+                o(b'\xa5' * (2 * nb + 3), bitlen=8 * (2 * nb + 3) - 5)
+                return o(M, bitlen=L)
+            ctx.eq('%s/%s/reused-object' % (K, cls), ctx.attempt(second), ('ok', exp))
         if L and kind == 0:
             for extra in (1, nb):
                 ctx.eq(K + '/prefix-of-longer-container', ctx.attempt(lambda: mk(Nb, Nb)(M + b'\x5a' * extra, bitlen=L)), ('ok', exp))
